@@ -719,6 +719,8 @@ def check_c05(ctx, rep, tier):
     _fwd_floor(rep, counts, "<< >>", 216, 36)
     run_generic(ctx, rep, "LEN", f2.length_effects,
                 select=lambda b, k: b.trait in SHIFT_TRAITS or b.name in ("shl_in", "shr_in"))
+    run_generic(ctx, rep, "DECR", arith.decr_sites, configs=("dbg",), trusted_rule="DECR-TABLE",
+                select=lambda b, k: b.name in ("shl_in", "shr_in") or b.trait in SHIFT_TRAITS)
     n = run_generic(ctx, rep, "RET", shl_in_return)
     rep.floor("shl_in/shr_in implementations", n, 4)
     run_mask(ctx, rep, select=lambda w: w.body.name in ("shl_in", "shr_in") or w.body.trait in SHIFT_TRAITS)
@@ -828,6 +830,41 @@ def bv_to_int_dispatch(crate):
     return out
 
 
+def bv_source_dispatch(crate):
+    """From<&Bv>/From<Bv> for Bvd and From<&Bv> for Bv: each arm converts the payload of its own variant (same variant
+    when the target is Bv); nothing else is involved"""
+    out = []
+    for b in crate.bodies:
+        if not (b.trait == "From" and b.self_family in ("Bvd", "Bv") and b.trait_args and b.trait_args[0] in ("&Bv", "Bv")):
+            continue
+        ret = b.return_expr()
+        alts = ret[2] if ret[0] == "phi" else (ret,)
+        seen = []
+        probs = []
+        src = ("param", b.local_name(1))
+        for a in alts:
+            inner, wrap = a, None
+            if a[0] == "agg" and a[1] == "Bv" and len(a[3]) == 1:
+                inner, wrap = a[3][0], a[2]
+            core = inner
+            if mir.is_call(core, ("from", "clone")) and len(core[3]) == 1:
+                core = core[3][0]
+            v = dispatch.payload_variant(core)
+            if v is None or core[1][1] != src:
+                probs.append("arm yields `%s`, which is not a conversion of a variant payload of the source" % mir.show(a)[:80])
+                continue
+            if wrap is not None and wrap != v:
+                probs.append("payload of variant %s is re-wrapped as %s" % (v, wrap))
+            if b.self_family == "Bv" and wrap is None:
+                probs.append("payload of variant %s is not re-wrapped in a Bv variant" % v)
+            seen.append(v)
+        if sorted(seen) != ["Dynamic", "Fixed"]:
+            probs.append("arms cover variants %s, expected one arm per variant" % seen)
+        out.append((b, "%s|variant dispatch" % b.key, "violation" if probs else "pass",
+                    "; ".join(dict.fromkeys(probs)) if probs else "one arm per variant, each converting its own payload"))
+    return out
+
+
 def check_c11(ctx, rep, tier):
     n = run_generic(ctx, rep, "LEN", f2.length_effects, select=_is_int_conv)
     rep.floor("integer conversion length effects", n, 18)
@@ -864,6 +901,8 @@ def check_c12(ctx, rep, tier):
     rep.floor("unsafe/layout facts", n, 4)
     n = run_generic(ctx, rep, "IDENT", new_into_inner)
     rep.floor("new/into_inner", n, 4)
+    n = run_generic(ctx, rep, "DISPATCH", bv_source_dispatch)
+    rep.floor("conversions dispatching on a Bv source", n, 3)
     if tier == "thorough":
         _matrix(ctx, rep, ("conv",))
     run_defs(ctx, rep, "get_int", "int_len", "::len", "capacity", floor=12)
